@@ -69,7 +69,7 @@ def oracle(r, viol):
 def run(ctx):
     seed, tier = ctx['seed'], ctx['tier']
     from concurrent.futures import ThreadPoolExecutor
-    nconf = 12
+    nconf = 13
     outs = [os.path.join(ctx['work'], f'c12_{k}.jsonl') for k in range(nconf)]
 
     def one(k):
@@ -129,7 +129,7 @@ def run(ctx):
             dist['fault_kinds'][kk] = dist['fault_kinds'].get(kk, 0) + 1
     sample = {k: recs[0][k] for k in ('tag', 'cfg', 'gets', 'answers', 'values', 'n_mutations')} if recs else None
     res = {'evaluations': len(recs), 'distinct_nontrivial': len({(json.dumps(r['cfg'], sort_keys=True), json.dumps(r.get('point')), json.dumps(r.get('faults'))) for r in recs}),
-            'rule': '12 configurations (disk / stacked disk caches on one store / column cache with 1, 2, 3-key shards / disk under columns; json, pickle, '
+            'rule': '13 configurations (disk through CacheToDisk.simple and through the constructor / stacked disk caches on one store / column cache with 1, 2, 3-key shards / disk under columns; json, pickle, '
                     'dict, nested dict, chain and default serializers; with and without labels); every tree between two mutations of the writer, undamaged and '
                     'under fault sets (each single fault, random sets of 2-5), then two fresh processes; thorough: the recovering process dies too; '
                     'distinct by (configuration, crash point, fault set)',
